@@ -28,16 +28,19 @@ Kinds == {"random uniform distribution", "random uniform distribution deflected"
 (* perm: the composition labels are listed in the other order (label # position in the lists) *)
 (* basis: the orientation the deflected model deflects from -- the identity, a quarter turn about the vertical, or a generic
    rotation given by z-x-z Euler angles (non-zero off-diagonal entries) *)
-Worlds == {w \in [type : Types, kind : Kinds, perm : BOOLEAN, basis : {"identity", "quarter-turn", "generic"}] :
+(* fixed0: which label has the given size.  FALSE: label 0 random and normalised, label 1 given (0.5) and not normalised;
+   TRUE: label 0 GIVEN and normalised (its sizes must still sum to one), label 1 random and not normalised *)
+Worlds == {w \in [type : Types, kind : Kinds, perm : BOOLEAN, basis : {"identity", "quarter-turn", "generic"}, fixed0 : BOOLEAN] :
               /\ (w.type = "plume" => w.kind = "random uniform distribution deflected")
-              /\ (w.basis # "identity" => (w.kind = "random uniform distribution deflected" /\ ~w.perm))}
+              /\ (w.basis # "identity" => (w.kind = "random uniform distribution deflected" /\ ~w.perm))
+              /\ (w.fixed0 => (~w.perm /\ w.basis = "identity"))}
 Ord(w, pair) == IF w.perm THEN <<pair[2], pair[1]>> ELSE pair
 IsLine(t) == t \in {"subducting plate", "fault"}
 
 Id3 == << <<1, 0, 0>>, <<0, 1, 0>>, <<0, 0, 1>> >>
 RotZ4 == << <<0, -1, 0>>, <<1, 0, 0>>, <<0, 0, 1>> >>
 GrainsModel(w) ==
-     ("model" :> w.kind) @@ ("compositions" :> Ord(w, <<0, 1>>)) @@ ("grain sizes" :> Ord(w, <<-1, Dec(5, -1)>>))
+     ("model" :> w.kind) @@ ("compositions" :> Ord(w, <<0, 1>>)) @@ ("grain sizes" :> Ord(w, IF w.fixed0 THEN <<Dec(5, -1), -1>> ELSE <<-1, Dec(5, -1)>>))
   @@ ("normalize grain sizes" :> Ord(w, <<TRUE, FALSE>>))
   @@ (IF w.kind = "random uniform distribution deflected"
       THEN ("deflections" :> Ord(w, <<1, Dec(5, -1)>>))
@@ -69,8 +72,9 @@ Queries == { <<"G0x1", <<PG(0, 1)>>, TRUE>>, <<"G0x3", <<PG(0, 3)>>, TRUE>>, <<"
              <<"C7", <<PC(7)>>, TRUE>>, <<"C8", <<PC(8)>>, TRUE>>, <<"T", <<PT, PTag>>, TRUE>>,
              <<"batch", <<PG(0, 2), PC(7), PT, PG(1, 1), PC(8)>>, TRUE>>, <<"outside", <<PG(0, 2), PC(7)>>, FALSE>> }
 
-Draws1(w, p) == CASE p[1] = 3 /\ p[2] = 0 -> (IF IsLine(w.type) THEN 2 ELSE 1) * 4 * p[3]      \* random size: 3n + n
-                  [] p[1] = 3 /\ p[2] = 1 -> (IF IsLine(w.type) THEN 2 ELSE 1) * 3 * p[3]      \* fixed size: 3n
+RandomSize(w, label) == (label = 0) # w.fixed0                \* the label whose size is drawn
+Draws1(w, p) == CASE p[1] = 3 /\ p[2] \in {0, 1} /\ RandomSize(w, p[2]) -> (IF IsLine(w.type) THEN 2 ELSE 1) * 4 * p[3]      \* random size: 3n + n
+                  [] p[1] = 3 /\ p[2] \in {0, 1} -> (IF IsLine(w.type) THEN 2 ELSE 1) * 3 * p[3]                              \* given size: 3n
                   [] p[1] = 2 /\ p[2] \in {7, 8} /\ w.type = "continental plate" -> 1
                   [] OTHER -> 0
 DrawCount(w, q) == IF q[3] THEN SumSeq([i \in 1..Len(q[2]) |-> Draws1(w, q[2][i])]) ELSE 0
@@ -106,8 +110,9 @@ Valid(w, props, i, inside) ==
   IF i > Len(props) THEN <<>>
   ELSE LET p == props[i]  off == Offset(props, i)
            e == IF ~inside THEN (IF p[1] = 3 THEN <<[k |-> "eq", at |-> off, v |-> [j \in 1..Size(p) |-> 0]]>> ELSE <<[k |-> "eq", at |-> off, v |-> 0]>>)
-                ELSE CASE p[1] = 3 /\ p[2] = 0 -> <<[k |-> "rotations", at |-> off, n |-> p[3], tol |-> Dec(1, -12), sizes_sum |-> 1]>>
-                       [] p[1] = 3 /\ p[2] = 1 -> <<[k |-> "rotations", at |-> off, n |-> p[3], tol |-> Dec(1, -12), sizes_in |-> <<Dec(5, -1), Dec(5, -1)>>]>>
+                ELSE CASE p[1] = 3 /\ p[2] = 0 -> <<[k |-> "rotations", at |-> off, n |-> p[3], tol |-> Dec(1, -12), sizes_sum |-> 1]>>      \* normalised (random or given)
+                       [] p[1] = 3 /\ p[2] = 1 /\ ~w.fixed0 -> <<[k |-> "rotations", at |-> off, n |-> p[3], tol |-> Dec(1, -12), sizes_in |-> <<Dec(5, -1), Dec(5, -1)>>]>>
+                       [] p[1] = 3 /\ p[2] = 1 -> <<[k |-> "rotations", at |-> off, n |-> p[3], tol |-> Dec(1, -12)]>>                                \* random, not normalised
                        [] p[1] = 2 /\ p[2] = 7 /\ w.type = "continental plate" -> <<[k |-> "between", at |-> off, lo |-> Dec(25, -2), hi |-> Dec(75, -2), slack |-> 0]>>
                        [] p[1] = 2 /\ p[2] = 8 /\ w.type = "continental plate" -> <<[k |-> "between", at |-> off, lo |-> 10, hi |-> 11, slack |-> 0]>>
                        [] OTHER -> <<>>
@@ -126,7 +131,7 @@ Steps(k) ==
 
 Behaviour ==
   [id |-> <<"rng", world, seed, [k \in 1..Len(hist) |-> hist[k][1][1]]>>,
-   labels |-> <<"rng", world.type, world.kind, IF world.perm THEN "labels-permuted" ELSE "labels-in-order", "basis-" \o world.basis>>,
+   labels |-> <<"rng", world.type, world.kind, IF world.perm THEN "labels-permuted" ELSE "labels-in-order", "basis-" \o world.basis, IF world.fixed0 THEN "given-size-normalised" ELSE "random-size-normalised">>,
    steps |-> << [op |-> "create", h |-> 1, wb |-> Doc(world, -1), seed |-> seed],
                 [op |-> "create", h |-> 2, wb |-> Doc(world, seed), seed |-> seed + 17],
                 [op |-> "create", h |-> 3, wb |-> Doc(world, -1), seed |-> seed + 1],
